@@ -354,6 +354,8 @@ def input_dtypes(spec, cfg, tier, seed):
         m = torch.randint(0, 2, shape, generator=g).float()
         cases.append((f"forward m{shape}", lambda: enc.forward, (m,)))
     for shape in ((n,), (3, n), (2, 2 * n)):
+        if codes.rm_search_heavy(cfg):
+            break  # Reed-Muller calculate_syndrome runs the nearest-codeword search over 2^k codewords per word
         y = torch.randint(0, 2, shape, generator=g).float()
         cases.append((f"calculate_syndrome y{shape}", lambda: enc.calculate_syndrome, (y,)))
     return DT.run("C01", spec, cfg, tier, seed, cases, DT.BIT_DTYPES, "forward and calculate_syndrome, layouts 1-D, (3,.), (2, 2 blocks)")
